@@ -169,9 +169,9 @@ class TitanRequest(BaseRequest):
         if ";" not in line:
             raise ValueError("Titan URL must contain parameters (;size=...)")
 
-        # Whitespace and control characters have no place in a URL ("size= 5 ").
-        if any(ord(ch) <= 0x20 or ord(ch) == 0x7F for ch in line):
-            raise ValueError("Titan URL must not contain whitespace or control characters")
+        # TAB, CR and LF would be deleted silently by the URL parser
+        if any(ch in "\t\r\n" for ch in line):
+            raise ValueError("Titan URL must not contain TAB, CR or LF")
 
         # A fragment is not allowed anywhere in the line, and neither is user-info.
         # Both must be looked for before the line is cut at the first semicolon:
@@ -265,5 +265,7 @@ def _parse_titan_params(params_str: str) -> dict[str, str]:
     for part in params_str.split(";"):
         if "=" in part:
             key, value = part.split("=", 1)
-            params[key.strip()] = value.strip()
+            # (no stripping: str.strip() would also remove Unicode blanks such as
+            # U+00A0, which are not allowed around a key or a value)
+            params[key] = value
     return params
